@@ -193,6 +193,14 @@ def handle : Handler
     else
       let bad := out.filter (fun t => !expect.contains t)
       s!"VIOL concurrent-pool:{",".intercalate bad} model={" ".intercalate expect}"
+  | ["addrm", _seed, _rounds, _hold, _poll], out =>
+    -- Add(name) ‖ Remove(name) on a real router while the poller is busy: C16_add_remove_same_name_atomic says every
+    -- interleaving ends in a sequential outcome with everything consistent, whatever the timing
+    let expect := ["bad=0", "incons=0", "stuck=0", "first=-", "leak=0"]
+    if out = expect then "OK nt b=add-vs-remove-same-name"
+    else
+      let bad := out.filter (fun t => !expect.contains t)
+      s!"VIOL add-vs-remove-same-name:{",".intercalate bad} model={" ".intercalate expect}"
   | ["cstream", d, mode, md], out => cstreamVerdict d mode md out
   | ["connrace", _seed, _n], out =>
     -- Close racing Stream on one real AdaptedClientConn (C16_conn_close_stream_safe / _closed_is_final)
